@@ -177,6 +177,7 @@ struct Subject<A: Aggregator<S, 16>, const S: usize> {
     strict_content: bool,
     budget: u8,
     corrupt_all_bytes: bool,
+    not_judged: std::sync::atomic::AtomicU64,
 }
 
 #[derive(Clone, Debug, Hash, PartialEq, Eq)]
@@ -466,14 +467,16 @@ where
                     Ok(Ok(cont)) => {
                         let sender_tainted = st.tainted[1 - p as usize];
                         if !correct {
-                            let content_fault = matches!(src, Src::Flip(_) | Src::Truncate | Src::Extend);
+                            let content_fault = matches!(src, Src::Flip(_));
                             if s.strict_content || !content_fault {
                                 n.violation = Some(format!("party {p} accepted a faulty message ({:?}: {})", src, hex(&bytes)));
                                 return Some(n);
                             }
-                            // altered-but-decodable payload: the VDAF must catch it before any output
-                            n.tainted[p as usize] = true;
-                            n.faults += 1;
+                            // An altered-but-still-decodable payload of a real VDAF is not a topology
+                            // fault (the statement lists wrong kind / wrong round / duplicated /
+                            // undecodable): what the VDAF does with it is decided by C02 / C04.
+                            s.not_judged.fetch_add(1, std::sync::atomic::Ordering::Relaxed);
+                            return None;
                         }
                         if sender_tainted {
                             n.tainted[p as usize] = true;
@@ -638,6 +641,7 @@ where
         }
         run.distinct(fnv(name.as_bytes()));
     }
+    run.count("altered_decodable_payloads_accepted_not_judged_here", subj.not_judged.load(std::sync::atomic::Ordering::Relaxed) / 3);
     if counts[0] != counts[1] {
         panic!("{name}: state counts differ between two runs of the checker: {:?} (non-deterministic model)", counts);
     }
@@ -686,7 +690,7 @@ fn main() {
     let tape = Tape::Seeded(run.seed ^ 0xC12);
     // (i) strict instrumented VDAF, 1..4 rounds
     for rounds in 1..=4u8 {
-        let subj = Subject { name: format!("Strict(rounds={rounds})"), vdaf: Strict { rounds }, vk: [7u8; 32], ctx: b"c12".to_vec(), param: SParam { p: 9 }, nonce: [1u8; 16], ps: (), shares: vec![SInput { agg_id: 0, value: 11 }, SInput { agg_id: 1, value: 22 }], rounds: rounds as usize, strict: true, strict_content: true, budget: if q { 2 } else { 3 }, corrupt_all_bytes: true };
+        let subj = Subject { name: format!("Strict(rounds={rounds})"), vdaf: Strict { rounds }, vk: [7u8; 32], ctx: b"c12".to_vec(), param: SParam { p: 9 }, nonce: [1u8; 16], ps: (), shares: vec![SInput { agg_id: 0, value: 11 }, SInput { agg_id: 1, value: 22 }], rounds: rounds as usize, strict: true, strict_content: true, budget: if q { 2 } else { 3 }, corrupt_all_bytes: true, not_judged: Default::default() };
         check(&run, subj);
     }
     // (ii) Prio3Count, Prio3Histogram (joint randomness)
@@ -694,10 +698,10 @@ fn main() {
         let vdaf = Prio3::new_count(2).unwrap();
         let nonce: [u8; 16] = tape.array(1);
         let (ps, shares) = vdaf.shard_with_random(b"c12", &true, &nonce, &tape.bytes(2, 64)).unwrap();
-        check(&run, Subject { name: "Prio3Count".into(), vdaf, vk: tape.array(3), ctx: b"c12".to_vec(), param: (), nonce, ps, shares, rounds: 1, strict: true, strict_content: false, budget, corrupt_all_bytes: !q });
+        check(&run, Subject { name: "Prio3Count".into(), vdaf, vk: tape.array(3), ctx: b"c12".to_vec(), param: (), nonce, ps, shares, rounds: 1, strict: true, strict_content: false, budget, corrupt_all_bytes: !q, not_judged: Default::default() });
         let vdaf = Prio3::new_histogram(2, 4, 2).unwrap();
         let (ps, shares) = vdaf.shard_with_random(b"c12", &2usize, &nonce, &tape.bytes(4, 128)).unwrap();
-        check(&run, Subject { name: "Prio3Histogram".into(), vdaf, vk: tape.array(5), ctx: b"c12".to_vec(), param: (), nonce, ps, shares, rounds: 1, strict: true, strict_content: false, budget, corrupt_all_bytes: !q });
+        check(&run, Subject { name: "Prio3Histogram".into(), vdaf, vk: tape.array(5), ctx: b"c12".to_vec(), param: (), nonce, ps, shares, rounds: 1, strict: true, strict_content: false, budget, corrupt_all_bytes: !q, not_judged: Default::default() });
     }
     // (iii) Poplar1, inner and leaf level (2 rounds)
     for (bits, level) in [(3usize, 1usize), (3, 2), (1, 0)] {
@@ -712,12 +716,12 @@ fn main() {
             std::mem::swap(&mut on, &mut sib);
         }
         let param = Poplar1AggregationParam::try_from_prefixes(vec![IdpfInput::from_bools(&on), IdpfInput::from_bools(&sib)]).unwrap();
-        check(&run, Subject { name: format!("Poplar1(bits={bits},level={level})"), vdaf, vk: tape.array(13), ctx: b"c12".to_vec(), param, nonce, ps, shares, rounds: 2, strict: true, strict_content: false, budget, corrupt_all_bytes: !q });
+        check(&run, Subject { name: format!("Poplar1(bits={bits},level={level})"), vdaf, vk: tape.array(13), ctx: b"c12".to_vec(), param, nonce, ps, shares, rounds: 2, strict: true, strict_content: false, budget, corrupt_all_bytes: !q, not_judged: Default::default() });
     }
     // (iv) the crate's dummy VDAF, 1..3 rounds
     for rounds in 1..=3u32 {
         let vdaf = prio::vdaf::dummy::Vdaf::new(rounds);
-        check(&run, Subject { name: format!("Dummy(rounds={rounds})"), vdaf, vk: [], ctx: b"c12".to_vec(), param: prio::vdaf::dummy::AggregationParam(3), nonce: [0u8; 16], ps: (), shares: vec![prio::vdaf::dummy::InputShare(5), prio::vdaf::dummy::InputShare(9)], rounds: rounds as usize, strict: false, strict_content: true, budget, corrupt_all_bytes: false });
+        check(&run, Subject { name: format!("Dummy(rounds={rounds})"), vdaf, vk: [], ctx: b"c12".to_vec(), param: prio::vdaf::dummy::AggregationParam(3), nonce: [0u8; 16], ps: (), shares: vec![prio::vdaf::dummy::InputShare(5), prio::vdaf::dummy::InputShare(9)], rounds: rounds as usize, strict: false, strict_content: true, budget, corrupt_all_bytes: false, not_judged: Default::default() });
     }
     run.exhaustive(true);
     run.finish();
